@@ -642,6 +642,8 @@ class OpsMixin:
                     r = self.or_(r, self.compare(ast.Eq(), item, k))
                 return r
             return item in container
+        if isinstance(container, set) and id(container) in self.symsets:
+            container = list(container) + list(self.symsets[id(container)][1])
         if isinstance(container, (list, tuple, set, frozenset)) or type(container).__name__ in ("dict_keys", "dict_values"):
             r = False
             for k in container:
